@@ -558,6 +558,21 @@ func teCase(id tedwards.ID, idName string, native ecc.ID, op string) *gcase {
 			qx, qy := rc.mul(params.Base[0], params.Base[1], k2)
 			// scalars: anything below the group order, edges included (0, 1, order-1, order)
 			s1, s2 := drawScalar(tape, rc.order, true), drawScalar(tape, rc.order, true)
+			// over-sized scalars: any element of the native field is a legal scalar
+			switch tape.Choose(simrt.SWorkload, 6) {
+			case 0:
+				s1 = new(big.Int).Sub(q, big.NewInt(1))
+			case 1:
+				s1 = new(big.Int).Lsh(big.NewInt(1), uint(rc.order.BitLen()))
+				s1.Add(s1, big.NewInt(int64(tape.Choose(simrt.SWorkload, 9))))
+				s1.Mod(s1, q)
+			case 2:
+				s1 = new(big.Int).Mul(rc.order, big.NewInt(int64(2+tape.Choose(simrt.SWorkload, 3))))
+				s1.Add(s1, big.NewInt(int64(tape.Choose(simrt.SWorkload, 9))))
+				s1.Mod(s1, q)
+			case 3:
+				s1, s2 = drawValue(tape, q), drawValue(tape, q)
+			}
 			var wx, wy *big.Int
 			switch op {
 			case "mul":
